@@ -308,6 +308,8 @@ def rule_levels(ctx, rep, rid):
                 rep.check(body == want_body, rid, name + ".target-test-polarity@%s" % a[0], "target %s 1 << (i - 1) %s the level" % ("<=" if a[0] == "ule" else ">", "removes" if a[0] == "ule" else "keeps"),
                           "the shrink loop %s when resize_target %s 1 << (i - 1): levels still wanted by the target are removed (or none ever is)" % ("continues" if body else "stops", "<=" if a[0] == "ule" else ">"), [t.where()])
             dst = pat.branch_edges_on(f, lambda a: a[0] in ("ne", "eq") and a[2] == ("c", 0) and a[1][0] == "load" and a[1][1].endswith("cds_lfht.in_progress_destroy"))
+            if not dst:
+                rep.bad(rid, name + ".stops-for-destroy", "fini_table no longer stops when a destroy is in progress", [f.name])
             for t, s_, a in dst:
                 if a[0] == "ne":
                     hit, _ = f.reach([f.blocks[s_].insts[0]], [c for c in calls if c.callee != "cds_lfht_free_bucket_table"] + szs, include_start=True)
@@ -542,6 +544,10 @@ def rule_createbucket(ctx, rep, rid):
     ob = [a for t, s_, a in pat.branch_edges_on(f, lambda a: len(a) == 3 and a[1] == ("phi", oph.id))]
     okob = any(a[0] in ("ult", "uge") and ir.expr_contains(a[2], lambda z: z[0] == "call" and z[1].startswith("cds_lfht_get_count_order")) and ir.expr_contains(a[2], lambda z: z == ("c", 1)) for a in ob)
     rep.check(okob, rid, "create.level-bound", "levels up to and including the order of the initial size", "level loop bound is %s" % [ir.atom_str(a) for a in ob][:2], [lv[0].where()])
+    for t, s_, a in pat.branch_edges_on(f, lambda a: len(a) == 3 and a[1] == ("phi", oph.id) and a[0] in ("ult", "uge")):
+        body = f.reach([f.blocks[s_].insts[0]], lv, include_start=True, avoid=lambda i, t=t: i is t)[0] is not None
+        rep.check(body == (a[0] == "ult"), rid, "create.level-polarity@%s" % a[0], "order < bound enters the level, order >= bound leaves", "the level loop %s when order %s its bound: no level beyond 0 is created" % (
+            "runs" if body else "ends", "<" if a[0] == "ult" else ">="), [t.where()])
     ln = ("bin", "shl", ("c", 1), ("bin", "add", ("phi", oph.id), ("c", -1)))
     ln2 = ("bin", "shl", ("c", 1), ("bin", "sub", ("phi", oph.id), ("c", 1)))
     inner = [c for c in ba if c not in b0]
@@ -691,3 +697,63 @@ def rule_explicit_resize(ctx, rep, rid):
         return any(x is not None and depends(x, k, depth - 1) for x in ops)
     dep = all(depends(s.args[0], 1) for s in st)
     rep.check(dep, rid, "resize.target-from-arg", "the stored target is derived from the requested size", "the stored target does not depend on the requested size: %s" % [ir.expr_str(ir.expr(f, s.args[0], 6)) for s in st][:1], [st[0].where()])
+
+
+def rule_workcb(ctx, rep, rid):
+    """the work-queue callbacks of the hash table run the resize / destroy as a registered RCU thread under the resize mutex and
+    leave unregistered (the worker thread sleeps between work items: a thread left registered and online stalls every later
+    qsbr grace period; a second registration corrupts the registry)"""
+    m = ctx.mod("cds", "perfn")
+    f = m.fn("do_resize_cb")
+    if f is None:
+        raise Broken("do_resize_cb vanished")
+    rep.touch(f)
+    ics = [i for i in f.all_insts() if i.op == "icall"]
+    reg = [i for i in ics if (lambda e: e[0] == "load" and e[1].endswith("rcu_flavor_struct.register_thread"))(ir.expr(f, i.d["fp"], 6))]
+    unr = [i for i in ics if (lambda e: e[0] == "load" and e[1].endswith("rcu_flavor_struct.unregister_thread"))(ir.expr(f, i.d["fp"], 6))]
+    rs = pat.calls(f, "_do_cds_lfht_resize")
+    pat.require(rs, "do_resize_cb: _do_cds_lfht_resize")
+    if not reg or not unr:
+        rep.bad(rid, "resize_cb.registered", "the resize callback does not %s with the flavor" % ("register" if not reg else "unregister"), [f.name])
+    else:
+        rep.must_pass(rid, "resize_cb.registered", f, [f.entry()], rs, lambda i: i in reg, include_start=True, what="register_thread before the resize")
+        rep.must_pass(rid, "resize_cb.unregisters", f, rs, None, lambda i: i in unr, to_exit=True, what="unregister_thread after the resize, on every path")
+    lk = [c for c in f.calls() if c.callee in ("mutex_lock", "pthread_mutex_lock") and c.d["aps"][0] is not None and pat.last_field(c.d["aps"][0]) == "cds_lfht.resize_mutex"]
+    ul = [c for c in f.calls() if c.callee in ("mutex_unlock", "pthread_mutex_unlock") and c.d["aps"][0] is not None and pat.last_field(c.d["aps"][0]) == "cds_lfht.resize_mutex"]
+    if not lk or not ul:
+        rep.bad(rid, "resize_cb.mutex", "the resize callback runs the resize loop without the resize mutex", [f.name])
+    else:
+        rep.must_pass(rid, "resize_cb.mutex", f, [f.entry()], rs, lambda i: i in lk, include_start=True, what="resize mutex taken before the resize loop")
+        rep.must_pass(rid, "resize_cb.mutex-released", f, rs, None, lambda i: i in ul, to_exit=True, what="resize mutex released after the resize loop")
+    a0 = ir.expr(f, rs[0].args[0], 4)
+    rep.check(a0[0] == "load" and a0[1].endswith("resize_work.ht"), rid, "resize_cb.table", "resizes the table recorded in the work item", "resizes %s" % ir.expr_str(a0), [rs[0].where()])
+
+
+def rule_count_approx(ctx, rep, rid):
+    """cds_lfht_count_nodes: both approximations sum add - del over every split counter, index 0 .. split_count_mask"""
+    m = ctx.mod("cds", "perfn")
+    f = m.fn("cds_lfht_count_nodes")
+    if f is None:
+        raise Broken("cds_lfht_count_nodes vanished")
+    rep.touch(f)
+    lds = [l for l in f.all_insts() if l.op == "load" and l.d["ap"] and pat.last_field(l.d["ap"]) in ("ht_items_count.add", "ht_items_count.del")]
+    pat.require(len(lds) >= 4, "count_nodes: split counter loads")
+    phis = set()
+    for l in lds:
+        for st in l.d["ap"]["steps"]:
+            pass
+        e = ir.expr(f, l.args[0], 6) if l.args else None
+    comps = [c for c in f.sccs() if any(l.blk.id in c for l in lds)]
+    pat.require(len(comps) == 2, "count_nodes: the two approximation loops")
+    for k, comp in enumerate(sorted(comps, key=min)):
+        idx = [i for i in f.all_insts() if i.op == "phi" and i.blk.id in comp and i.d.get("ty") == "i32"]
+        ok = False
+        for ph in idx:
+            incs = [ir.expr(f, v, 4) for v, _b in ph.d["inc"]]
+            bound = [a for t, s_, a in pat.branch_edges_on(f, lambda a: len(a) == 3 and ir.expr_contains(a[1], lambda z: z == ("phi", ph.id)) and ir.expr_contains(a[2], lambda z: z[0] == "load" and z[1] == "@split_count_mask"))]
+            if ("c", 0) in incs and ("bin", "add", ("phi", ph.id), ("c", 1)) in incs and any(a[0] in ("slt", "sge", "sle", "sgt") for a in bound):
+                okb = any((a[0] in ("slt", "sge") and a[2] == ("bin", "add", ("load", "@split_count_mask", a[2][2][2] if a[2][0] == "bin" and a[2][2][0] == "load" else "na", a[2][2][3] if a[2][0] == "bin" and a[2][2][0] == "load" else 0), ("c", 1))) or
+                          (a[0] in ("sle", "sgt") and a[2][0] == "load") for a in bound)
+                ok = okb
+        which = "before" if k == 0 else "after"
+        rep.check(ok, rid, "count_nodes.approx-%s.loop" % which, "sums split counters 0 .. split_count_mask", "the approximation loop does not run i = 0, 1, ..., split_count_mask (index or bound changed): counters are skipped / memory outside the array is read", [f.name])
